@@ -244,6 +244,9 @@ func genCore(c *Ctx, mode string) {
 	if mode == "C08" {
 		layoutProbes(c)
 	}
+	if mode == "C07" {
+		failStopProbes(c)
+	}
 	if mode == "C07" && c.Shard == 0 {
 		for _, src := range []string{"g := {|x, y| [x, y]}\n1.^g(ValueErr.new(\"dropped\")).p\n\"after\".p\n"} {
 			o := coreRun(src)
@@ -397,6 +400,59 @@ func failStopOracle(base, inj Outcome, msg string, kind string) string {
 		}
 	}
 	return ""
+}
+
+// failStopProbes (no model involved): fixed programs, one per shape that a fail-stop defect has been seen to need (a
+// yield before the raise, defers before and after it, a raise in a default / guard / chain step / nested call ...).
+// Each prints markers; `want` lists what must be printed, and the program must end with ValueErr "boom".
+var failStopProbeList = []struct{ src, want string }{
+	{"f := {|a| yield 1; boom(); 3}\nf(0).p\n\"after\".p", ""},
+	{"f := {|a| \"b1\".p; yield 1; \"b2\".p; boom(); \"b3\".p}\nx := f(0)\n\"after\".p", "b1 b2"},
+	{"it := <{|i| yield i; boom(); recur(i + 1)}>.new(1)\nit.next.p\n\"after\".p", ""},
+	{"f := {|a| defer \"d1\".p; defer \"d2\".p; boom(); defer \"d3\".p; 1}\nf(0)\n\"after\".p", "d1 d2"},
+	{"f := {|a| defer \"d1\".p; yield 5; defer \"d2\".p; boom()}\nf(0).p\n\"after\".p", "d1 d2"},
+	{"f := {|a, k: boom()| 1}\n\"after\".p", ""},
+	{"mk := {|d| {|n, by: d.{|z| boom() if z == 0; z}| n}}\nmk(5)(1).p\nmk(0)(1).p\n\"after\".p", "1"},
+	{"f := {|a| return 1 if boom(); 2}\nf(0).p\n\"after\".p", ""},
+	{"f := {|a| defer \"d\".p if boom(); \"body\".p}\nf(0)\n\"after\".p", ""},
+	{"[1, 2, 3]@{|x| \"e#{x}\".p; boom() if x == 2; x}.p\n\"after\".p", "e1 e2"},
+	{"[1, 2, 3]$(0){|acc, x| \"e#{x}\".p; boom() if x == 2; acc + x}.p\n\"after\".p", "e1 e2"},
+	{"g := {|x| boom()}\nf := {|a| \"in\".p; g(a); \"out\".p}\n[f(1)].p\n\"after\".p", "in"},
+	{"f := {|a, b, kx: 0| 1}\nf(t(1), boom(), kx: t(3))\n\"after\".p", "1"},
+	{"f := {|a, b, kx: 0, ky: 0| 1}\nf(t(1), kx: boom(), ky: t(3))\n\"after\".p", "1"},
+	{"{a: t(1), b: boom(), c: t(3)}\n\"after\".p", "1"},
+	{"%{t(1): t(2), boom(): t(4)}\n\"after\".p", "2 1 4"},
+	{"\"#{t(1)}#{boom()}#{t(3)}\"\n\"after\".p", "1"},
+	{"(t(1):boom():t(3))\n\"after\".p", "1"},
+	{"x := (t(1) + boom() + t(3))\n\"after\".p", "1"},
+	{"(t(1) if boom() else t(3))\n\"after\".p", ""},
+	{"(t(1) && boom() && t(3))\n\"after\".p", "1"},
+	{"(t(0) || boom() || t(3))\n\"after\".p", "0"},
+	{"o := {m: m{|x| boom()}}\no.m(t(1)).p\n\"after\".p", "1"},
+	{"5.{|x| boom()}.{|y| \"s2\".p}\n\"after\".p", ""},
+	{"f := {|a| defer {|| defer \"i1\".p; \"i2\".p}(); boom()}\nf(0)\n\"after\".p", "i2 i1"},
+	{"a := [t(1), *[t(2), boom()], t(4)]\n\"after\".p", "1 2"},
+	{"f := {|kx: 0| kx}\nf(**{kx: t(1), b: boom()})\n\"after\".p", "1"},
+}
+
+func failStopProbes(c *Ctx) {
+	prelude := "boom := {|| raise ValueErr.new(\"boom\")}\nt := {|v| v.p; v}\n"
+	for i, pr := range failStopProbeList {
+		if c.Shards > 1 && i%c.Shards != c.Shard {
+			continue
+		}
+		o := coreRun(prelude + pr.src + "\n")
+		got := strings.Join(strings.Fields(o.Stdout), " ")
+		rec := Rec{Src: pr.src, Impl: coreOutcome(o), NT: true, Tags: []string{"fail-stop-probe"}}
+		if o.Kind == "syntax" {
+			rec.Skip = "probe-does-not-parse"
+		} else if !(o.Kind == "err" && o.ErrKind == "ValueErr" && o.ErrMsg == "boom") {
+			rec.Oracle = fmt.Sprintf("the raise did not end the program: it ended with %s %s %s after printing [%s]", o.Kind, o.ErrKind, o.ErrMsg, got)
+		} else if got != pr.want {
+			rec.Oracle = fmt.Sprintf("printed [%s] around the raise, the property states [%s]", got, pr.want)
+		}
+		c.Em.Emit(rec)
+	}
 }
 
 // repeatRaiseProbes (no model involved): an explicitly called function that raises is called several times in one
